@@ -11,15 +11,19 @@ from ..explore import Chooser
 class CtlProperty:
     """Bundles oracle + config + units for one property; module-level ``factory`` functions return ``.factory()``."""
 
-    def __init__(self, pid: str, oracle_cls: Any, cfg_for: Callable[[Any], ctl.Config], base: Optional[type] = None) -> None:
+    def __init__(self, pid: str, oracle_cls: Any, cfg_for: Callable[[Any], ctl.Config], base: Optional[type] = None,
+                 cls_for: Any = None, world_cls: Any = None) -> None:
         self.pid = pid
         self.oracle_cls = oracle_cls
         self.cfg_for = cfg_for
         self.base = base
+        self.cls_for = cls_for
+        self.world_cls = world_cls
 
     def make_run(self, unit: Any) -> Callable[[Chooser], Any]:
         import plumpy
-        return ctl.make_runner(self.cfg_for, self.oracle_cls, self.base or plumpy.Process)(unit)
+        return ctl.make_runner(self.cfg_for, self.oracle_cls, self.base or plumpy.Process, cls_for=self.cls_for,
+                               world_cls=self.world_cls)(unit)
 
     def replay(self, doc: Dict[str, Any]) -> List[Dict[str, Any]]:
         from ..cli import to_tuple
